@@ -3,7 +3,8 @@ CHECK = {'level': 'exploration',
  'rule': "exhaustive: every '#define CIF_<NAME> <n>' of cif.h's return_codes group (scraped at run time from the tree under test, CIF_TRAVERSE_* "
          'excluded) is one case; every code is non-trivial; distinct = distinct code names',
  'assumptions': ["the committed stem table (harness/pbt/C20_errlist.cpp) transcribes each code's @brief text",
-                 'slots between defined codes are unconstrained'],
+                 'slots between defined codes are unconstrained',
+                 'code literals are read as the C compiler reads them (strtol base 0: 052 is forty-two); two names with one number are a violation'],
  'min_evaluations': 40,
  'technique': 'exhaustive enumeration of the generated finite domain (result codes scraped from cif.h) against a stem-table oracle',
  'level_text': 'Every result code defined in the header of the tree under test is checked on every run (exhaustive over a finite domain): slot '
